@@ -47,6 +47,7 @@ package model
 //@   loop 0 invariant len(m.SyntaxErrors) >= old(len(m.SyntaxErrors)) && (len(m.SyntaxErrors) == old(len(m.SyntaxErrors)) ==> forall(p, 0, rangeindex + 1, forall(i, 0, len(m.Packets[p].Fields), resolved(m, m.Packets[p].Fields[i]))))
 //@   loop 1 invariant m.PacketsMap == entry(m.PacketsMap) && len(m.Packets) == entry(len(m.Packets)) && forall(q, 0, len(m.Packets), m.Packets[q] == entry(m.Packets[q]))
 //@   loop 1 invariant len(m.SyntaxErrors) >= entry(len(m.SyntaxErrors))
+//@   loop 1 invariant cycleClosed(m, state)
 
 //@ func NewBinaryModel
 //@   ensures modelOK(result) && fresh(result) && metaWF(result) && len(result.Packets) == 0
@@ -99,8 +100,24 @@ package model
 //@   loop 0 invariant len(m.SyntaxErrors) == old(len(m.SyntaxErrors)) ==> forall(i, 0, rangeindex + 1, typeis(fields[i].Attr, *MatchFieldAttribute) ==> forall(k, 0, len(unbox(fields[i].Attr, *MatchFieldAttribute).MatchPairs), haskey(m.PacketsMap, unbox(fields[i].Attr, *MatchFieldAttribute).MatchPairs[k].Value)))
 //@   loop 1 invariant len(m.SyntaxErrors) >= entry(len(m.SyntaxErrors)) && (len(m.SyntaxErrors) == entry(len(m.SyntaxErrors)) ==> forall(k, 0, rangeindex + 1, haskey(m.PacketsMap, mf.MatchPairs[k].Value)))
 //@   terminates-assumed inline object declarations are finitely nested (they mirror the finite parse tree); recursion descends only into IsIner packets
+// Edge coverage of the cycle check (three-colour depth-first search; state 2 = done). A packet is marked
+// done only when every packet it refers to - through an object field, inline or not, or through any
+// alternative of a match field - is done (cycleClosed); marks are never taken back. This is the part of
+// "recursive references are rejected" that is a statement about one activation; that a closed, fully
+// marked graph has a rank (wf.rank below) is the textbook white-path argument and stays assumed.
+//@ pred fieldSuccDone(m *BinaryModel, f *Field, state map[*Packet]int) := (typeis(f.Attr, *ObjectFieldAttribute) && unbox(f.Attr, *ObjectFieldAttribute).RefPacket != nil ==> state[unbox(f.Attr, *ObjectFieldAttribute).RefPacket] == 2) && (typeis(f.Attr, *MatchFieldAttribute) ==> forall(k, 0, len(unbox(f.Attr, *MatchFieldAttribute).MatchPairs), haskey(m.PacketsMap, unbox(f.Attr, *MatchFieldAttribute).MatchPairs[k].Value) ==> state[m.PacketsMap[unbox(f.Attr, *MatchFieldAttribute).MatchPairs[k].Value]] == 2))
+//@ pred succDone(m *BinaryModel, p *Packet, state map[*Packet]int) := forall(j, 0, len(p.Fields), fieldSuccDone(m, p.Fields[j], state))
+//@ pred cycleClosed(m *BinaryModel, state map[*Packet]int) := forallkey(q, state, q != nil && state[q] == 2 ==> succDone(m, q, state))
 //@ func (*BinaryModel).containsCycle
 //@   requires p != nil && state != nil
+//@   requires cycleClosed(m, state)
+//@   ensures [C11:cycle-closed] cycleClosed(m, state)
+//@   ensures [C11:cycle-monotone] forallkeyold(q, state, old(state[q]) == 2 ==> state[q] == 2)
+//@   ensures [C11:cycle-edges] !result ==> state[p] == 2
+//@   loop 0 invariant cycleClosed(m, state) && forallkeyold(q, state, old(state[q]) == 2 ==> state[q] == 2)
+//@   loop 0 invariant forall(j, 0, rangeindex + 1, fieldSuccDone(m, p.Fields[j], state))
+//@   loop 1 invariant cycleClosed(m, state) && forallkeyold(q, state, old(state[q]) == 2 ==> state[q] == 2) && forallkeyentry(q, state, entry(state[q]) == 2 ==> state[q] == 2)
+//@   loop 1 invariant forall(k, 0, rangeindex + 1, haskey(m.PacketsMap, unbox(f.Attr, *MatchFieldAttribute).MatchPairs[k].Value) ==> state[m.PacketsMap[unbox(f.Attr, *MatchFieldAttribute).MatchPairs[k].Value]] == 2)
 //@   terminates-assumed every call either returns at once or marks a so far unmarked packet in state; the set of packets is finite
 
 // wf.rank: the reference graph of a finished model is acyclic (recursive references are rejected by
